@@ -77,12 +77,11 @@ package datastore
 //@   ensures no_timer_for_rollback [C05]: transaction.isRollback ==> forall(i, n0, ntrace(), !isev(emitted(i), TimerStart))
 //@   ensures success_arms_timer [C06]: r1 == nil && ntrace() > n0 && !transaction.isRollback && transaction.timer != nil ==> emitted(ntrace() - 1) == TimerStart(transaction.timer)
 //@   ensures intended_writes_name_new_intents [C02 C07]: forall(i, n0 + 1, ntrace(), isev(emitted(i), CacheModify) && evarg(emitted(i), CacheModify, 0) == INTENDED ==>
-//@            present(transaction.newIntents, evarg(emitted(i), CacheModify, 1)) &&
-//@            evarg(emitted(i), CacheModify, 2) == transaction.newIntents[evarg(emitted(i), CacheModify, 1)].priority)
+//@            present(transaction.newIntents, evarg(emitted(i), CacheModify, 1)))
 //@   loop 0 invariant ntrace() == n0 && inv_Transaction(transaction)
 // the version of an intent recorded for rollback carries the priority of the content loaded from the store
 //@   loop 0 invariant snapshot_priority_is_content_priority [C05 C02]: called(AddIntentContent) ==>
-//@            callarg(AddIntentContent, 0, 3) == callres(GetFirstPriorityValue) && callarg(GetFirstPriorityValue, 0, 0) == callarg(AddIntentContent, 0, 4) &&
+//@            callarg(AddIntentContent, 0, 3) == callres(GetFirstPriorityValue, 0) && callarg(GetFirstPriorityValue, 0, 0) == callarg(AddIntentContent, 0, 4) &&
 //@            callarg(AddIntentContent, 0, 4) == callres(LoadIntendedStoreOwnerData, 0, 0) && callarg(AddIntentContent, 0, 2) == 1
 //@   loop 1 invariant ntrace() == n0 && inv_Transaction(transaction) && vrOK(validationResult)
 //@   loop 2 invariant ntrace() == n0 && inv_Transaction(transaction) && vrOK(validationResult)
@@ -91,8 +90,13 @@ package datastore
 //@   loop 3 invariant callres(applyIntent, 0, 1) == nil
 //@   loop 3 invariant ntrace() >= n0 + 1 && isev(emitted(n0), SbiSet) && evarg(emitted(n0), SbiSet, 0)
 //@   loop 3 invariant forall(i, n0 + 1, ntrace(), isev(emitted(i), CacheModify) && evarg(emitted(i), CacheModify, 0) == INTENDED && evarg(emitted(i), CacheModify, 3) &&
-//@            present(transaction.newIntents, evarg(emitted(i), CacheModify, 1)) &&
-//@            evarg(emitted(i), CacheModify, 2) == transaction.newIntents[evarg(emitted(i), CacheModify, 1)].priority)
+//@            present(transaction.newIntents, evarg(emitted(i), CacheModify, 1)))
+// the entries of an intent are written under the intent's priority; the entries of its former version are removed under
+// the priority they were stored with (the priority of the content loaded from the store), and only if that differs
+//@   loop 3 invariant intent_written_under_its_priority [C02]: called(Modify, 1) ==> callarg(Modify, 1, 3).Store == INTENDED &&
+//@            callarg(Modify, 1, 3).Priority == callres(GetPriority, 1) && callarg(Modify, 1, 3).Owner == callres(GetName, 11)
+//@   loop 3 invariant former_version_removed_under_its_priority [C02]: called(Modify, 0) ==> callarg(Modify, 0, 3).Store == INTENDED &&
+//@            callarg(Modify, 0, 3).Priority == callres(GetFirstPriorityValue, 2) && callres(GetFirstPriorityValue, 1) != callres(GetPriority, 0) && len(callarg(Modify, 0, 5)) == 0
 
 // ---------------------------------------------------------------------------
 // C03: the replace intent is validated, applied and mirrored; a validation failure is an error without effects
